@@ -15,6 +15,10 @@ fn main() {
     if args.len() < 2 {
         usage();
     }
+    if args[1] == "child-c07" {
+        // second process of the two-process phase of the no-harm check
+        std::process::exit(pvh::props::c07::child_main(args.get(2).map(|s| s.as_str()).unwrap_or("")));
+    }
     if args[1] == "child-c06" {
         // child process of the kill-mode crash check
         std::process::exit(pvh::props::c06::child_main(args.get(2).map(|s| s.as_str()).unwrap_or("")));
